@@ -466,3 +466,58 @@ func ruleISRECOVERING(c *Ctx) {
 		c.Lost(rule, "compiler:IsRecovering", "no store into IsRecovering found")
 	}
 }
+
+// MINMAX(error-range): recoverFromError widens the error range [s, e) over the pending invalid
+// tokens: the start may only move left. Every conditional replacement of s by a token's offset
+// is governed by `tok.offset < s`; with the comparison flipped s jumps right past e and a
+// SyntaxProblem with offset > endoffset is reported.
+func ruleERRORRANGE(c *Ctx) {
+	const rule = "MINMAX(error-range)"
+	n := 0
+	for _, rel := range parserPkgs {
+		f := c.SSAFunc(rel, "(*Parser).recoverFromError")
+		if f == nil {
+			continue
+		}
+		ord := map[string]int{}
+		for _, b := range f.Blocks {
+			for _, ins := range b.Instrs {
+				ph, ok := ins.(*ssa.Phi)
+				if !ok || len(ph.Edges) != 2 {
+					continue
+				}
+				for i, e := range ph.Edges {
+					ld, ok := e.(*ssa.UnOp)
+					if !ok || ld.Op != token.MUL || !strings.HasSuffix(vpath(ld.X), ".offset") || strings.HasSuffix(vpath(ld.X), ".endoffset") {
+						continue
+					}
+					other := ph.Edges[1-i]
+					if _, isPhi := other.(*ssa.Phi); !isPhi {
+						continue
+					}
+					conds := edgeConds(b.Preds[i], b)
+					if len(conds) == 0 {
+						continue
+					}
+					l, op, r, ok := cmpNormV(conds[0].V, conds[0].Pol)
+					if !ok {
+						continue
+					}
+					if vpath(l) != vpath(e) && vpath(r) != vpath(e) {
+						continue // not a compare-and-replace of the start (e.g. s = stack[pos].sym.offset)
+					}
+					n++
+					key := ordKey(ord, rel+".Parser.recoverFromError:start")
+					if (op == "<" || op == "<=") && vpath(l) == vpath(e) && r == other {
+						c.Ok(rule, key, ph.Pos(), "the start of the error range is replaced by a token offset only when that offset is smaller")
+					} else {
+						c.Bad(rule, key, ph.Pos(), "the start of the error range is replaced by %s under `%s %s %s`: the start moves right, past the end computed from the same tokens, and a SyntaxProblem with offset > endoffset is reported", normalizePhi(vpath(e)), normalizePhi(vpath(l)), op, normalizePhi(vpath(r)))
+					}
+				}
+			}
+		}
+	}
+	if n < 2 {
+		c.add(rule, "count:", token.NoPos, CountDropped, true, "only %d start-of-range updates found in recoverFromError (tm and js confirmed by hand)", n)
+	}
+}
